@@ -249,6 +249,31 @@ func c09Tab(thorough bool) *c09Table {
 				})
 			}
 		}
+		// hex TEXT (not bytes): the text of two valid transactions with, at every position, the
+		// character replaced by each of 20 odd ones (neighbours of the digit ranges, upper case, control
+		// characters, bytes >= 0x80, multi-byte UTF-8), and every text of <=2 characters over that alphabet
+		{
+			odd := []string{"g", "G", "Z", " ", "\x00", "\x7f", "\x80", "\xc3", "\xe9", "\xff", "é", "€", "/", ":", "@", "`", "A", "F", "\n", "\xf0\x9f\x98\x80"}
+			texts := []string{
+				hex.EncodeToString((&txRecipe{V: 1, NIn: 1, NOut: 1, SLen: 2, PrevLen: 3, Sats: 5, OLen: 2, Seq: 1}).build().Bytes(false)),
+				hex.EncodeToString((&txRecipe{V: 2, NIn: 1, NOut: 1, SLen: 1, PrevLen: 3, Sats: 7, OLen: 1, Seq: 1}).build().Bytes(true)),
+			}
+			for _, tx := range texts {
+				tx := tx
+				t.add(len(tx)*len(odd), func(j uint64) c09Case {
+					pos, o := int(j)/len(odd), odd[int(j)%len(odd)]
+					return c09Case{"hextext", []byte(tx[:pos] + o + tx[pos+1:]), "hextext"}
+				})
+			}
+			short := append([]string{"0", "a", "f", "9"}, odd...)
+			t.add(len(short)*(len(short)+1), func(j uint64) c09Case {
+				a, b := int(j)/(len(short)+1), int(j)%(len(short)+1)
+				if b == len(short) {
+					return c09Case{"hextext", []byte(short[a]), "hextext-short"}
+				}
+				return c09Case{"hextext", []byte(short[a] + short[b]), "hextext-short"}
+			})
+		}
 		// JSON documents
 		docs := c09JSONDocs(thorough)
 		t.add(len(docs), func(j uint64) c09Case { return c09Case{"json", []byte(docs[j]), "json"} })
@@ -300,6 +325,60 @@ func c09Check(c c09Case) (fs []rep.Finding) {
 		if a1-a0 > budget {
 			fs = append(fs, rep.F("alloc|"+name, fmt.Sprintf("allocated %d bytes decoding %d bytes of input", a1-a0, len(data))))
 		}
+	}
+	if c.Kind == "hextext" {
+		text := string(data)
+		q, _ := json.Marshal(text)
+		budget = uint64(64*len(data)) + 256<<10
+		call("NewTxFromString/text", func() (int64, bool) {
+			t, err := bt.NewTxFromString(text)
+			if t == nil && err == nil {
+				fs = append(fs, rep.F("neither-value-nor-error|NewTxFromString", "the decoder returned a nil transaction and a nil error"))
+			}
+			return 0, false
+		})
+		hexDoc := []byte(`{"hex":` + string(q) + `}`)
+		call("json:Tx/hextext", func() (int64, bool) { var t bt.Tx; _ = json.Unmarshal(hexDoc, &t); return 0, false })
+		call("json:Tx.NodeJSON/hextext", func() (int64, bool) { t := bt.NewTx(); _ = json.Unmarshal(hexDoc, t.NodeJSON()); return 0, false })
+		call("json:Txs.NodeJSON/hextext", func() (int64, bool) {
+			var t bt.Txs
+			_ = json.Unmarshal([]byte(`[`+string(hexDoc)+`]`), t.NodeJSON())
+			return 0, false
+		})
+		// the same text in every other member that carries hex
+		id := `"` + hex.EncodeToString(txid32(3)) + `"`
+		for _, d := range []string{
+			`{"satoshis":1,"lockingScript":` + string(q) + `}`,
+			`{"value":0.1,"scriptPubKey":{"hex":` + string(q) + `}}`,
+			`{"txid":` + string(q) + `,"vout":0,"satoshis":1,"lockingScript":"51"}`,
+			`{"txid":` + id + `,"vout":0,"satoshis":1,"lockingScript":` + string(q) + `}`,
+			`{"txid":` + string(q) + `,"vout":0,"amount":0.1,"scriptPubKey":"51"}`,
+			`{"txid":` + id + `,"vout":0,"amount":0.1,"scriptPubKey":` + string(q) + `}`,
+			`{"unlockingScript":` + string(q) + `,"txid":` + id + `,"vout":0,"sequence":1}`,
+			`{"unlockingScript":"51","txid":` + string(q) + `,"vout":0,"sequence":1}`,
+			`{"version":1,"locktime":0,"vin":[{"txid":` + string(q) + `,"vout":0,"scriptSig":{"hex":"51"},"sequence":1}],"vout":[]}`,
+			`{"version":1,"locktime":0,"vin":[{"txid":` + id + `,"vout":0,"scriptSig":{"hex":` + string(q) + `},"sequence":1}],"vout":[{"value":0.1,"n":0,"scriptPubKey":{"hex":` + string(q) + `}}]}`,
+			`{"version":1,"locktime":0,"inputs":[{"unlockingScript":` + string(q) + `,"txid":` + id + `,"vout":0,"sequence":1}],"outputs":[{"satoshis":1,"lockingScript":` + string(q) + `}]}`,
+		} {
+			d := []byte(d)
+			call("json:members/hextext", func() (int64, bool) {
+				var o bt.Output
+				_ = json.Unmarshal(d, &o)
+				_ = json.Unmarshal(d, o.NodeJSON())
+				var u bt.UTXO
+				_ = json.Unmarshal(d, &u)
+				_ = json.Unmarshal(d, u.NodeJSON())
+				var us bt.UTXOs
+				_ = json.Unmarshal([]byte(`[`+string(d)+`]`), us.NodeJSON())
+				var i bt.Input
+				_ = json.Unmarshal(d, &i)
+				var t bt.Tx
+				_ = json.Unmarshal(d, &t)
+				_ = json.Unmarshal(d, t.NodeJSON())
+				return 0, false
+			})
+		}
+		return
 	}
 	if c.Kind == "bin" {
 		neither := func(name string, tx *bt.Tx, err error) {
@@ -566,7 +645,7 @@ func c09JSONDocs(thorough bool) (docs []string) {
 
 func init() {
 	p := register(&Prop{ID: "C09", Level: "fault_enumeration",
-		Rule: "exhaustive fault-style enumeration in single-threaded child processes (address-space limit, per-case progress marker, death/hang attribution): for each of ~22 (quick) / 26 (thorough) reference serialisations (standard and extended): every truncation length, the whole serialisation followed by surplus bytes, every single-bit flip, every byte replaced by every other value, every length/count field replaced by each of {0xfc,253,65535,65536,2^24,2^31,2^32-1,2^32,2^40,2^63,2^64-1} with the tail kept/cut/one byte, tx-list counts with those claims, every short wide-varint prefix; all strings of length<=5/7 over {00,01,02,EF,FD,FE,FF} bare, after a version and after the extended marker; a product of JSON documents (absent/null/valid/wrong-type/bad-hex per field incl. vin[i].scriptSig, vout[i].scriptPubKey, null elements, lists, fee quotes); amount texts with more than eight decimals, exponents and overflow, `size`/`txid`/`hash` members that disagree with `hex`; each through every binary (19, incl. readers that expose only Read and list targets with spare capacity, nil slots or earlier content) or JSON (13) decoding entry point, incl. targets that already hold a decoded object. Oracle per call: no panic, no process death, a value or an error (never neither), bytes-consumed <= bytes supplied, TotalAlloc delta <= 64*len+256KiB. distinct_nontrivial = distinct (family, decoder-outcome vector) classes",
+		Rule: "exhaustive fault-style enumeration in single-threaded child processes (address-space limit, per-case progress marker, death/hang attribution): for each of ~22 (quick) / 26 (thorough) reference serialisations (standard and extended): every truncation length, the whole serialisation followed by surplus bytes, every single-bit flip, every byte replaced by every other value, every length/count field replaced by each of {0xfc,253,65535,65536,2^24,2^31,2^32-1,2^32,2^40,2^63,2^64-1} with the tail kept/cut/one byte, tx-list counts with those claims, every short wide-varint prefix; all strings of length<=5/7 over {00,01,02,EF,FD,FE,FF} bare, after a version and after the extended marker; a product of JSON documents (absent/null/valid/wrong-type/bad-hex per field incl. vin[i].scriptSig, vout[i].scriptPubKey, null elements, lists, fee quotes); amount texts with more than eight decimals, exponents and overflow, `size`/`txid`/`hash` members that disagree with `hex`; hex TEXT (two transaction texts with every character replaced by each of 20 odd ones - neighbours of the digit ranges, control characters, bytes >= 0x80, multi-byte UTF-8 - and every text of <=2 characters) through NewTxFromString, the `hex` member of the three transaction documents and every other member that carries hex; each through every binary (19, incl. readers that expose only Read and list targets with spare capacity, nil slots or earlier content) or JSON (13) decoding entry point, incl. targets that already hold a decoded object. Oracle per call: no panic, no process death, a value or an error (never neither), bytes-consumed <= bytes supplied, TotalAlloc delta <= 64*len+256KiB. distinct_nontrivial = distinct (family, decoder-outcome vector) classes",
 	})
 	check := func(th bool, i uint64) []rep.Finding { return c09Check(c09Tab(th).at(i)) }
 	worker.Register(&worker.Space{
